@@ -34,7 +34,13 @@ Inductive wop :=
 | OpRequest (key raw : bytes) (h : Z) (arg : option merkle_resp) (net : merkle_resp)
     (* request_transactions([(txid, h)], cached=True); the server answers (raw, arg) *)
 | OpExtend (newh : list bytes)            (* update_headers: connect() appended newh, no rewind *)
-| OpReorg (fork : nat) (newh : list bytes) (* update_headers: rewound to height fork (< len), connected newh there *).
+| OpReorg (fork : nat) (newh : list bytes) (* update_headers: rewound to height fork (< len), connected newh there *)
+| OpReplace (fork : nat) (newh : list bytes)
+    (* update_headers / receive_header: connect(fork, newh) succeeded at once at a height BELOW the tip
+       (a competing tip of the same height, any k-for-k replacement): stored headers overwritten without
+       the rewind loop; since fix af7a9e2 the transaction cache is cleared here as well *)
+| OpRestart.   (* Headers.close writes the chain held in memory to the header file, the process ends, a new
+                  Ledger opens the file: the same header list, an empty transaction cache *)
 
 Inductive req_result :=
 | Hit (st : tx_state)                         (* served from the cache, the server is not asked *)
@@ -76,7 +82,13 @@ Definition step (s : wstate) (op : wop) : wstate * option req_result :=
   | OpRequest key raw h arg net => let (s', r) := request s key raw h arg net in (s', Some r)
   | OpExtend newh => ({| w_headers := w_headers s ++ newh; w_cache := w_cache s |}, None)
   | OpReorg fork newh => ({| w_headers := firstn fork (w_headers s) ++ newh; w_cache := [] |}, None)
+  | OpReplace fork newh => ({| w_headers := firstn fork (w_headers s) ++ newh; w_cache := [] |}, None)
+  | OpRestart => ({| w_headers := w_headers s; w_cache := [] |}, None)
   end.
+
+(* the behaviour BEFORE fix af7a9e2, kept only to state its refutation: replacement keeps the cache *)
+Definition old_replace (s : wstate) (fork : nat) (newh : list bytes) : wstate :=
+  {| w_headers := firstn fork (w_headers s) ++ newh; w_cache := w_cache s |}.
 
 Fixpoint run (s : wstate) (ops : list wop) : wstate * list (option req_result) :=
   match ops with
